@@ -67,12 +67,14 @@ func (b BalSpec) Address() sdk.AccAddress {
 
 // VAccSpec is a genesis continuous vesting account (its balance comes from Balances).
 type VAccSpec struct {
-	Actor           string `json:"actor"`
-	Addr            string `json:"addr,omitempty"` // explicit bech32 address (no key) instead of an actor
-	OriginalVesting string `json:"original_vesting"`
-	Start           int64  `json:"start"`
-	End             int64  `json:"end"`
-	Delayed         bool   `json:"delayed,omitempty"`
+	Actor            string `json:"actor"`
+	Addr             string `json:"addr,omitempty"` // explicit bech32 address (no key) instead of an actor
+	DelegatedVesting string `json:"delegated_vesting,omitempty"`
+	DelegatedFree    string `json:"delegated_free,omitempty"`
+	OriginalVesting  string `json:"original_vesting"`
+	Start            int64  `json:"start"`
+	End              int64  `json:"end"`
+	Delayed          bool   `json:"delayed,omitempty"`
 }
 
 // WorldSpec is everything needed to rebuild the genesis deterministically.
@@ -157,6 +159,7 @@ func BuildGenesis(spec *WorldSpec) (appState json.RawMessage, vals []ValInfo, er
 			}
 			ba := authtypes.NewBaseAccount(a, nil, 0, 0)
 			bva := authvesting.NewBaseVestingAccount(ba, MustCoins(va.OriginalVesting), va.End)
+			bva.DelegatedVesting, bva.DelegatedFree = MustCoins(va.DelegatedVesting), MustCoins(va.DelegatedFree)
 			if va.Delayed {
 				accs = append(accs, authvesting.NewDelayedVestingAccountRaw(bva))
 			} else {
